@@ -62,6 +62,8 @@ def conversions(k_max=3, with_gen=True):
         out.append(("parse.class+init->emit.function/k%d" % k, ("parse_class_init_emit_function", class_with_init([], und))))
     full = partially_documented(["a", "b", "c"], [])
     out.append(("parse.function/full", ("parse_function", full)))
+    # a conversion that fails half-way (inside a def block) and is caught by the caller: later conversions must not notice
+    out.append(("to_code/fails_inside_def", ("to_code_too_deep", 700)))
     for kind in ("class", "function", "argparse", "rest", "numpydoc", "google"):
         out.append(("emit.%s" % kind, ("emit", kind)))
     out.append(("parse.docstring/numpydoc_defaults", ("parse_docstring",
@@ -269,6 +271,12 @@ def run(spec):
                                      function_name="f", function_type="static"))
     if op == "parse_docstring":
         return canon(parse.docstring(arg))
+    if op == "to_code_too_deep":
+        big = ("def big(a):\n    \"\"\"\n    :param a: the a\n    \"\"\"\n    total = " + " + ".join(["a"] * arg) + "\n    return total\n")
+        try:
+            return to_code(ast.parse(big))
+        except RecursionError:
+            return "RAISE:RecursionError"  # (the message depends on where the limit was hit)
     if op == "emit":
         sys.path.insert(0, os.environ.get("VERIF_HOME", "/verif"))
         from mc import alphabets as al
